@@ -7,7 +7,8 @@ SPEC = {
     "required_theorems": ["evolve_keygen", "period_after_updates", "pk_invariant", "update_fails_iff", "verify_own_period",
                           "cverify_own_period", "verify_other_period_fails", "cverify_other_period_fails", "sym_verify_iff",
                           "sym_cverify_iff", "sumSig_bytes_roundtrip", "cSig_bytes_roundtrip", "gen_unknowns", "gen_sizes", "gen_instantiations",
-                          "keyBytes_length"],
+                          "keyBytes_length", "updateSlice_refines", "keygenSliceSome_refines", "keygenSliceNone_refines",
+                          "evolveBytes_keygen", "signFromSlice_refines", "csignFromSlice_refines"],
     "translators": [translate_kes],
     "streams": [{"name": "kes", "quick": 20, "thorough": 420}],
     "rule": "a case = one key: construction alternates sum / compact sum, depth cycles through 1..7 (quick: 1..7 then 2,3,4,1,2,3,4), "
@@ -19,7 +20,8 @@ SPEC = {
             "was accepted and an other-period verification was rejected in the case",
     "trusted_base": [
         "Model/Kes.lean: the sum_kes!/sum_compact_kes! macros transcribed once for arbitrary depth on the tree the buffer encodes, plus the byte "
-        "layout keyBytes/skBytes and the signature codecs; tie = stream `kes` (public key and the WHOLE key buffer after keygen and after every "
+        "layout keyBytes/skBytes and the signature codecs; Model/KesBytes.lean: the same macros at the level of the byte slices (offsets, "
+        "in-place writes, zeroing, period) — proved to refine the tree model, and the one the stream runs for keygen/update/sign; tie = stream `kes` (public key and the WHOLE key buffer after keygen and after every "
         "update, signature bytes, verification verdicts, from_bytes results compared on every op, depths 1..7, both constructions)",
         "primitives of the concrete instance: Model/Blake2b.lean (C10), Model/Ed25519.lean + Sha512.lean (C11), ed25519-dalek verify_strict "
         "transcribed as verifyStrict",
